@@ -3,7 +3,7 @@ EXTENDS Scope, TLC, Json
 CONSTANTS MaxTasks
 Kinds == {"ok", "e1", "e2", "panic", "wait_ok", "wait_e3"}
 TaskSeqs(n) == {s \in [1..n -> [kind : Kinds, main : BOOLEAN, parent : 0..(n - 1)]] : \A i \in 1..n : s[i].parent < i}
-AllPrograms == UNION {[tasks : TaskSeqs(n), body : {"ok", "e0"}, outer : BOOLEAN] : n \in 0..MaxTasks}
+AllPrograms == UNION {[tasks : TaskSeqs(n), body : {"ok", "e0", "panic"}, outer : BOOLEAN] : n \in 0..MaxTasks}
 Stuck == ~AllDone /\ ~ENABLED (BodySpawn \/ BodyFinish \/ OuterCancel \/ \E i \in 1..N(prog) : TaskSpawn(i) \/ TaskFinish(i))
 (* programs whose main tasks wait for a cancellation nobody causes can hang: reported as outcome "hang" (the harness skips them) *)
 Done == /\ AllDone => PrintT(<<"CASE", ToJson([prog |-> prog, outcome |-> Outcome])>>)
